@@ -490,6 +490,52 @@ def _verbatimspace(ctx, kids):
     ctx.close()
 
 
+@reg('um_definer', cls='user')
+def _um_definer(ctx, kids):
+    # a macro that is (re)defined while the body of another macro is expanded, and used afterwards:
+    # everything it prints is text of its body and belongs to its own call
+    g, h = ctx.gword(), ctx.gword()
+    ctx.w('\\newcommand{\\mNm}{}\\newcommand{\\mSet}[1]{\\renewcommand{\\mNm}{%s #1}}' % g)
+    ctx.gap()
+    ctx.open('um_definer-set', WS)
+    ctx.w('\\mSet{%s}' % h)
+    ctx.close()
+    ctx.gap()
+    ctx.word()
+    ctx.gap()
+    n = ctx.open('um_definer-use', WS)
+    ctx.w('\\mNm{}')
+    ctx.gen(g, n)
+    ctx.gen(h, n)
+    ctx.close()
+
+
+@reg('um_heading', cls='user')
+def _um_heading(ctx, kids):
+    # a heading that comes from the body of a user macro: title, dot and all belong to the call
+    g = ctx.gword()
+    ctx.w('\\newcommand{\\mSn}{\\section{%s \\LaTeX}}' % g)
+    ctx.gap()
+    n = ctx.open('um_heading', WS)
+    ctx.w('\\mSn{}')
+    ctx.gen(g, n)
+    ctx.gen('LaTeX', n)
+    ctx.gen('.', n)
+    ctx.close()
+
+
+@reg('accentverb', cls='special')
+def _accentverb(ctx, kids):
+    # an accent applied to the first character of verbatim text: the rest keeps its own offsets
+    ctx.open('accentverb', ())
+    o = ctx.w("\\'{\\verb|")
+    ctx.seg(['S', '\u00e9', o])
+    ctx.w('e')
+    ctx.copy('bc')
+    ctx.w('|}')
+    ctx.close()
+
+
 @reg('proof', slots=1, cls='gen', par=True)
 def _proof(ctx, kids):
     ctx.open('proof-frame', WS)
@@ -747,8 +793,8 @@ def user_macro(name, nargs, definer, body, default=None, give_option=False):
             # detached flows inside an argument appear once per use of it
             argdet.append(ctx.detached[d0:])
             del ctx.detached[d0:]
-        if not kids:
-            ctx.w('{}')
+        if not kids and name != 'um_optbare':
+            ctx.w('{}')         # um_optbare: the macro name is followed by the separator and the next word
         for p in body:
             if p[0] == 'g':
                 ctx.gen(gw[p[1]], n)
@@ -770,13 +816,14 @@ user_macro('um_def', 2, 'def', [('t', '<'), ('a', 0), ('t', '>'), ('a', 1)])
 user_macro('um_drop', 2, 'renewcommand', [('a', 0)])
 user_macro('um_opt', 2, 'newcommand', [('a', 0), ('t', ':'), ('a', 1), ('g', 0)], default=True)
 user_macro('um_optonly', 1, 'newcommand', [('t', '('), ('a', 0), ('t', ')')], default=True)
+user_macro('um_optbare', 1, 'newcommand', [('t', '('), ('a', 0), ('t', ')')], default=True)
 user_macro('um_optgiven', 2, 'newcommand', [('a', 0), ('t', '+'), ('a', 1)], default=True, give_option=True)
 
 
 def preamble_text(features, sedname='ymc.sed'):
     s = ''
     if 'gls' in features:
-        s += '\\gls@defglossaryentry{ka}{text={Gxaq},plural={Gxbq},description={Gxcq Gxdq}}\n'
+        s += '\\gls@defglossaryentry{ka}{text={gxaq},plural={gxbq},description={gxcq gxdq}}\n'
     if 'cref' in features:
         s += '\\usepackage[poorman]{cleveref}\\YYCleverefInput{%s}\n' % sedname
     return s
@@ -797,10 +844,12 @@ def gls_entry(name, macro, words):
         ctx.close()
 
 
-gls_entry('gls', '\\gls', ['Gxaq'])
+gls_entry('gls', '\\gls', ['gxaq'])
 gls_entry('Gls', '\\Gls', ['Gxaq'])
-gls_entry('glspl', '\\glspl', ['Gxbq'])
-gls_entry('glsdesc', '\\glsdesc', ['Gxcq', 'Gxdq'])
+gls_entry('glspl', '\\glspl', ['gxbq'])
+gls_entry('glsdesc', '\\glsdesc', ['gxcq', 'gxdq'])
+gls_entry('Glsdesc', '\\Glsdesc', ['Gxcq', 'gxdq'])
+gls_entry('GLS', '\\GLS', ['GXAQ'])
 
 
 def cref_entry(name, src, words):
@@ -971,3 +1020,5 @@ def write_aux_files(directory):
         f.write(SED_TEXT)
     with open(os.path.join(directory, 'ymcinput.tex'), 'w') as f:
         f.write('Hzzq text of the file \\newcommand{\\unusedq}{Hzzq}\\footnote{Hzzq}\n')
+    with open(os.path.join(directory, 'ymcempty.tex'), 'w') as f:
+        f.write('')
